@@ -485,6 +485,20 @@ def _protocol(run, ix):
         run.instance("R3", s.where, f"setter stores into self._data['{field}']", ok)
         if not ok:
             run.violation("R3", s.where, f"Trimesh.{field} setter does not store through the hashed DataStore", key=key_of("C01-R3", "setter", field))
+            continue
+        # ... on EVERY path to a normal exit: a path that leaves without re-binding the entry (an in-place copy into the stored buffer, a
+        # silent return) changes bytes that another tracked array may share without that array's flag being raised
+        import networkx as _nx
+        g2 = cfg.g.copy()
+        g2.remove_nodes_from([n_ for st in stores for n_ in cfg.nodes_of.get(id(st), [])])
+        bypass = cfg.exit in g2 and cfg.entry in g2 and _nx.has_path(g2, cfg.entry, cfg.exit)
+        run.instance("R3", s.where, f"every path through the {field} setter re-binds self._data['{field}']", not bypass)
+        if bypass:
+            inplace = [st for st in ast.walk(s.node) if isinstance(st, ast.Assign) and isinstance(st.targets[0], ast.Subscript) and not ast.unparse(st.targets[0].value).startswith("self._data")]
+            run.violation("R3", s.where, f"Trimesh.{field} setter has a path that returns without `self._data['{field}'] = ...`"
+                          + (f" (it writes `{ast.unparse(inplace[0])[:50]}` into the array that is already stored)" if inplace else "")
+                          + ": the stored buffer may be memory the caller - or a second mesh / path built on the same array - also tracks, and that other TrackedArray keeps its "
+                            "memoised hash while its bytes change", key=key_of("C01-R3", "setter-bypass", field))
 
 
 SALVAGE = {
